@@ -34,7 +34,9 @@ CLAIMED = {
               "(sound_callback_preserves_curve). The command sequences as_path() builds for line, ellipse/circle and rect "
               "(generic builders ShapeCmds.*, which the model prints) are proved to draw the outlines SVG 1.1 section 9 "
               "prescribes (line_as_path, ellipse_as_path, rect_as_path: corner arcs exactly when the resolved radius is "
-              "positive). For arcs_to_cubics and polygon/polyline the semantic half is carried by the Spec-judged search."),
+              "positive); rect_from_attributes: the radii from_element reads off the attributes give the outline SVG 1.1 9.2 "
+              "prescribes for them as written (a radius not given is copied, one given as zero means square corners), checked "
+              "per run on rect elements with absent, blank, zero and positive radii. For arcs_to_cubics and polygon/polyline the semantic half is carried by the Spec-judged search."),
         note=("Trusted: Lean kernel; propext/Classical.choice/Quot.sound; Spec/PathInterp.lean, Spec/Shapes.lean; translator; "
               "harness; F64 ntos/round bridge. Three repaired defects (41546f5, 169f23a, b4525fa), see known_findings.json."),
         technique="Lean 4 proof (induction over the walk; simulation of the walk by the path interpreter) + d-string correspondence + Spec.interp-judged search",
